@@ -377,7 +377,46 @@ def sh_pack(rng, big):
     return d
 
 
+def sh_relin(rng, big):
+    r = rng.range(1, 2)
+    d = {"rank": r, "size": rng.range(1, 6), "b2k": rng.choice(RADICES), "arank": r, "asize": rng.range(1, 6), "ab2k": rng.choice(RADICES)}
+    tsk_part(rng, d)
+    d["tb2k"] = d["ab2k"] if not rng.chance(1, 3) else rng.choice([x for x in RADICES if x != d["ab2k"]])
+    # with dsize > 1 the product resizes res_dft to the key's size: tsk_size < tsk.size() panics in set_size (not a scratch matter)
+    d["tskuse"] = d["tsize"] if d["tdsize"] > 1 else rng.range(max(1, d["tsize"] - 1), d["tsize"])
+    return d
+
+
+def sh_cswap(rng, big):
+    r = rng.range(1, 2)
+    d = key_part(rng, big, r, r)
+    # cross-radix cswap panics in glwe_sub (it subtracts the unconverted operands): same radix only
+    b2k = d["kb2k"]
+    d.update({"rank": r, "arank": r, "size": rng.range(1, 6), "asize": rng.range(1, 6), "b2k": b2k, "ab2k": b2k})
+    return d
+
+
+def sh_ckks_rot(rng, big):
+    d = sh_ks_assign(rng, big)
+    return d
+
+
+def sh_ckks_pt(rng, big):
+    b2k = rng.choice(RADICES)
+    return {"rank": 1, "size": rng.range(1, 7), "b2k": b2k, "arank": 1, "asize": rng.range(1, 7), "ab2k": b2k, "ptk": rng.range(1, 6 * b2k)}
+
+
+REF = ["fft64ref", "ntt120ref"]
 OPS.update({
+    "glwe_tensor_relinearize": (sh_relin, ALL, True, 8),
+    "cswap": (sh_cswap, ALL, True, 8),
+    "ckks_rotate": (sh_ckks_rot, REF, False, 8),
+    "ckks_pt_vec_znx": (sh_none, REF, False, 1),
+    "ckks_pt_vec_rnx": (sh_ckks_pt, REF, False, 1),
+    "ckks_extract_pt": (sh_none, REF, False, 1),
+    "ckks_encrypt_sk": (sh_glwe, REF, False, 1),
+    "ckks_decrypt": (sh_glwe, REF, False, 1),
+    "ckks_mul_pt_const": (sh_ckks_pt, REF, False, 1),
     "glwe_noise": (sh_glwe, ALL, True, 2),
     "gglwe_noise": (sh_noise, ALL, True, 2),
     "ggsw_noise": (sh_noise, ALL, True, 2),
@@ -417,7 +456,7 @@ OPS.update({
     "glwe_mul_const_assign": (sh_mul_const_assign, ALL, True, 2),
 })
 
-USES_VMP = {o for o in OPS if o.startswith("vmp_") or any(w in o for w in ("keyswitch", "external_product", "automorphism", "trace", "cmux", "bdd", "from_lwe", "from_glwe", "ggsw_from", "expand", "pack"))}
+USES_VMP = {o for o in OPS if o.startswith("vmp_") or any(w in o for w in ("keyswitch", "external_product", "automorphism", "trace", "cmux", "bdd", "from_lwe", "from_glwe", "ggsw_from", "expand", "pack", "relinearize", "cswap"))}
 
 
 AUTO_FUSED = ["glwe_automorphism_add", "glwe_automorphism_sub", "glwe_automorphism_sub_negate"]
